@@ -919,11 +919,14 @@ func (e *encoder[T]) kMapCanonical(ti *typeInfo, rv, rvv reflect.Value, keyFn, v
 
 		sideEncode(e.hh, &e.h.sideEncPool, func(se encoderI) {
 			se.ResetBytes(&mksv)
+			// the keys are nested in the value being encoded: its pointers are their ancestors too
+			se.ciInherit(e.ci)
 			for i, k := range mks {
 				v := &mksbv[i]
 				l := len(mksv)
 				se.setContainerState(containerMapKey)
-				se.encodeR(baseRVRV(k))
+				// encodeValue strips the pointers of a key itself (and records them if CheckCircularRef)
+				se.encodeR(k)
 				se.atEndOfEncode()
 				se.writerEnd()
 				v.r = k
